@@ -1,3 +1,4 @@
--- This module serves as the root of the `Mxj` library.
--- Import modules here that should be built as part of the library.
-import Mxj.Basic
+-- Root of the `Mxj` library.  Property theorems live in Mxj/Props/Cxx.lean and are built
+-- per property by /verif/check (and pre-built by /verif/setup.sh); the model is under
+-- Mxj/Model, helper lemmas under Mxj/Lemmas, regenerated facts under Mxj/Generated.
+import Mxj.Model.Val
